@@ -75,7 +75,12 @@ func refCandidate(dstField *types.Var, srcT types.Type, local string, exact, get
 			if !nameEq(dstField.Name(), f.Name(), exact) || (imported && !ast.IsExported(f.Name())) {
 				continue
 			}
-			return ladder(f.Type(), dstField.Type(), stringer, typecast), "src." + f.Name()
+			// "the source struct OFFERS a candidate ... whose type is assignable": under
+			// :case:off several fields may bear the name; one that does not fit does not
+			// hide a later one that does
+			if k := ladder(f.Type(), dstField.Type(), stringer, typecast); !strings.HasPrefix(k, "nomatch") {
+				return k, "src." + f.Name()
+			}
 		}
 	}
 	return "nomatch", ""
